@@ -307,8 +307,8 @@ impl Check for C10 {
     }
     fn lanes(&self, tier: Tier) -> Vec<(&'static str, usize, usize)> {
         match tier {
-            Tier::Quick => vec![("miniscript", 30_000, 300), ("descriptor", 15_000, 300), ("keys", 30_000, 100), ("policy", 20_000, 200), ("wallet", 5_000, 300), ("strings", 40_000, 300), ("checksum", 30_000, 300)],
-            Tier::Thorough => vec![("miniscript", 3_000_000, 400), ("descriptor", 1_500_000, 400), ("keys", 3_000_000, 100), ("policy", 2_000_000, 300), ("wallet", 500_000, 400), ("strings", 4_000_000, 400), ("checksum", 3_000_000, 400)],
+            Tier::Quick => vec![("miniscript", 450_000, 300), ("descriptor", 225_000, 300), ("keys", 450_000, 100), ("policy", 300_000, 200), ("wallet", 75_000, 300), ("strings", 600_000, 300), ("checksum", 450_000, 300)],
+            Tier::Thorough => vec![("miniscript", 9_000_000, 400), ("descriptor", 4_500_000, 400), ("keys", 9_000_000, 100), ("policy", 6_000_000, 300), ("wallet", 1_500_000, 400), ("strings", 12_000_000, 400), ("checksum", 9_000_000, 400)],
         }
     }
     fn run_case(&self, lane: &str, src: &mut Src, rep: &mut Report) -> Result<(), Failure> {
